@@ -70,6 +70,7 @@ Ticked(S, j, t) == S.lmt[j] = t
 Valid(S, j)     == S.lmt[j] # 0
 
 NoVal == -999999   \* "no scripted value at this time" (script values are small integers)
+Inv   == -888888   \* scripted "the input loses its value at this time"
 ScriptVal(i, t) == LET js == {j \in 1..Len(Node(i).script) : Node(i).script[j][1] = t}
                    IN  IF js = {} THEN NoVal ELSE Node(i).script[CHOOSE j \in js : TRUE][2]
 
@@ -89,7 +90,10 @@ EvalNode(S, i, t) ==
         allOk   == \A k \in ValidIns(n) : k <= Len(n.ins) => iok[k]
     IN
     CASE n.kind = "src" ->
-            IF ScriptVal(i, t) # NoVal THEN Write(S, i, t, ScriptVal(i, t)) ELSE S
+            \* a scripted Inv entry models an input whose source goes away (an element removed from one of several
+            \* multiplexed dictionaries): from then on it holds no value; this is not a tick
+            IF ScriptVal(i, t) = Inv THEN [S EXCEPT !.lmt[i] = 0, !.val[i] = 0]
+            ELSE IF ScriptVal(i, t) # NoVal THEN Write(S, i, t, ScriptVal(i, t)) ELSE S
       [] n.kind = "timer" ->
             IF S.pend[i] = t
             THEN LET S1 == Write(S, i, t, S.st[i])
@@ -219,7 +223,7 @@ TimeMonotone == \A j \in 1..Len(cycles) :
                    /\ (j > 1 => cycles[j - 1] < cycles[j])
 
 \* C03/C04: a node's last-modified time is the time of its latest write and never in the future
-LmtIsLastWrite == \A i \in {j \in 1..N(prog) : Node(j).kind # "ite"} :   \* a reference follows its target's validity
+LmtIsLastWrite == \A i \in {j \in 1..N(prog) : Node(j).kind # "ite" /\ \A e \in 1..Len(Node(j).script) : Node(j).script[e][2] # Inv} :   \* a reference follows its target's validity
                      LET ws == {j \in 1..Len(writes) : writes[j][2] = i /\ Node(i).kind # "rec"}
                      IN  IF ws = {} THEN lmt[i] = 0
                          ELSE /\ lmt[i] = writes[CHOOSE j \in ws : \A k \in ws : k <= j][1]
